@@ -50,7 +50,7 @@ CLAIMS.update({
           "Assumes filelock>=3.13 stale-lock breaking on the same host (verified on each run). Time-outs are retried once alone with 4x the bound before being reported.", "6/C12"),
  "C13": C("model_checking", "JobProtocol.tla with body outcomes {ok, raise, collect-failure}: M1 + every 3-submission history executed (python, two-output python, workflow) + M4",
           "ErrNeverServed, RaiseIsReported, ErrorRecorded in the model; per history: statuses, body counts and error text must match the behaviour; traces validated. Failure histories [fail, cause removed, resubmit, resubmit] for shell commands (exit 1, exit 3, SIGKILL, SIGTERM) and for a workflow with a failing node under max_concurrent 0/1/2 and the debug/cf workers: failed, executed again, then served from the cache.",
-          "Same identity made to succeed later through a side file (not part of the cache identity). Known finding C13-heldback-node-stale-error matched on class + the two recorded status/execution signatures.", "6/C13"),
+          "Same identity made to succeed later through a side file (not part of the cache identity).", "6/C13"),
  "C14": C("model_checking", "Submitter.tla (expansion loop + worker pool) M1 over DAGs x failing subsets; TLC schedules forced on a real cf Submitter with token-gated bodies; traces validated by TLC",
           "IndependentJobsRun, DependentsNeverRun, ErrorNamesEveryFailedJob, FailureIsReported, NeverCrashes for every interleaving of worker progress and scans; sampled schedules replayed (bodies released/failed in order, waiting for the loop's scan in between).",
           "Scan is modelled atomically; launch order within a pass is not controlled.", "6/C14"),
